@@ -1,7 +1,6 @@
 import DSymVerif.Props.C06
 #print axioms DSymVerif.C06.backtrack_preorder
 #print axioms DSymVerif.C06.more_fuel_same
-#print axioms DSymVerif.C06.exPath_valid
 #print axioms DSymVerif.C06.scan_orbit_gap1_free
 #print axioms DSymVerif.C06.implications_never_panic
 #print axioms DSymVerif.C06.implications_sound
@@ -9,3 +8,5 @@ import DSymVerif.Props.C06
 #print axioms DSymVerif.C06.store_guard_dead
 #print axioms DSymVerif.C06.emitted_complete_commuting
 #print axioms DSymVerif.C06.counters_consecutive
+#print axioms DSymVerif.C06.check_canonicity_never_panics
+#print axioms DSymVerif.C06.generator_never_panics
